@@ -213,6 +213,14 @@ def run_property(pid, tier, seed):
         "wall_s": round(time.time() - t0, 2),
         "violations": len(violations),
     }
+    # thorough tier: the must-fail corpus of this property (seeded changes that break it) is run
+    # through the quick check on a scratch worktree; a seed that is no longer reported means the
+    # machinery lost detection power (engine regression) -> the check is broken, not "held"
+    corpus_broken = []
+    if tier != "quick" and not os.environ.get("VERIF_REPO") and not os.environ.get("VERIF_NO_SEEDS") and not violations:
+        corpus = must_fail_corpus(pid)
+        evidence["coverage"]["must_fail_corpus"] = corpus
+        corpus_broken = [n for n, r in corpus.items() if r == "missed"]
     json.dump(evidence, open(ev_path, "w"), indent=1)
     seen_k = []
     for k, o in known_hits:
@@ -225,6 +233,10 @@ def run_property(pid, tier, seed):
         print(line)
     print("check %s [%s]: %d obligations, %d discharged, %d known findings, %d violations, %d broken probes, %.1fs" % (
         pid, tier, n_claimed, len(discharged), len(known_hits), len(violations), len(broken), time.time() - t0))
+    for n in corpus_broken:
+        print("BROKEN-CHECK must-fail corpus: seeded change %s (breaks %s) is not reported any more" % (n, pid))
+    if corpus_broken and not violations:
+        return 2
     if broken:
         for o in broken:
             print("BROKEN-CHECK %s :: %s (%s) %s" % (short_fn(o["fn"]), o["name"], o.get("status"), o.get("src", "")))
@@ -238,3 +250,29 @@ def property_assumptions(pid):
     if os.path.exists(p):
         return [a if a.startswith("A-") else "note: " + a for a in json.load(open(p)).get(pid, [])]
     return []
+
+
+def must_fail_corpus(pid):
+    """Runs lib/seedtest.py for the seeds of this property (those that still break it on the current tree)."""
+    names = []
+    for d in sorted(glob.glob(os.path.join(ROOT, "seeded", "*", "meta.json"))):
+        m = json.load(open(d))
+        if m.get("property") != pid or m.get("neutralised_by_fix") or m.get("outside_claim"):
+            continue
+        names.append(os.path.basename(os.path.dirname(d)))
+    if not names:
+        return {}
+    env = dict(os.environ)
+    env["VERIF_TIER"] = "quick"
+    env["VERIF_SEED_RESULTS"] = "/tmp/verif_corpus_%s.json" % pid
+    p = subprocess.run([sys.executable, os.path.join(ROOT, "lib", "seedtest.py")] + names, stdout=subprocess.PIPE, stderr=subprocess.STDOUT, text=True, env=env)
+    out = {}
+    for ln in p.stdout.splitlines():
+        f = ln.split()
+        if len(f) >= 2 and f[0] in names:
+            out[f[0]] = "detected" if f[1] == "DETECTED" else ("missed" if f[1] == "missed" else " ".join(f[1:5]))
+    try:
+        os.remove(env["VERIF_SEED_RESULTS"])
+    except OSError:
+        pass
+    return out
